@@ -1077,6 +1077,8 @@ PSPUBLIC int32 psX509GetCertPublicKeyDer(psX509Cert_t *cert,
 PSPUBLIC int32 psX509AuthenticateCert(psPool_t *pool, psX509Cert_t *subjectCert,
                                       psX509Cert_t *issuerCert, psX509Cert_t **foundIssuer,
                                       void *hwCtx, void *poolUserPtr);
+/* Is 'a' a copy of the certificate 'b' (same TBSCertificate, same signature)? */
+PSPUBLIC psBool_t psX509IsSameCert(const psX509Cert_t *a, const psX509Cert_t *b);
 #  endif
 #  ifdef USE_CRL
 #   define CRL_CHECK_EXPECTED  5                    /* cert had a dist point but not fetched yet */
